@@ -83,6 +83,15 @@ def scenario_for(seed, index, tier):
         listeners.append({'id': i, 'early': rng.random() < 0.5,
                           'outgoing': outgoing, 'types': types,
                           'ignore': ignore, 'fw': fw, 'ofw': ofw})
+    for l in list(listeners):
+        if len(listeners) < 12 and rng.random() < 0.12:
+            # the same callable registered a second time, for other packet
+            # types, later on (with other listeners in between): two
+            # registrations, two places in the order
+            pool = OUT_TYPES if l['outgoing'] else IN_TYPES
+            alias = dict(l, id=len(listeners), cb=l['id'],
+                         types=rng.sample(pool, rng.choice([1, 1, 2])))
+            listeners.append(alias)
     known = set(ids['cb.play.known'])
     login = []
     if ids['cb.login.plugin_request'] is not None:
@@ -105,7 +114,9 @@ def scenario_for(seed, index, tier):
         elif k < 0.85:
             hist.append(['time', j, 100 + j])
         else:
-            uid = rng.choice([i for i in range(0x80) if i not in known])
+            uid = rng.choice([i for i in range(0x80) if i not in known]) \
+                if rng.random() < 0.75 else \
+                rng.choice([0x80, 0xC8, 0x3FFF, 0x4000])
             hist.append(['unknown', uid, '%02x' % j])
     writes = [[rng.choice(['q', 'f']), 'out%d' % j]
               for j in range(rng.choice([0, 0, 1, 3, 6]))]
@@ -194,11 +205,11 @@ def dispatch_in(listeners, kind):
     """Reference incoming dispatch: -> (calls [(lid, stage)], reacted)."""
     calls = []
     for l in matching(listeners, kind, False, True, MATCH_IN):
-        calls.append(l['id'])
+        calls.append(l.get('cb', l['id']))
         if kind in l['ignore']:
             return calls, False
     for l in matching(listeners, kind, False, False, MATCH_IN):
-        calls.append(l['id'])
+        calls.append(l.get('cb', l['id']))
         if kind in l['ignore']:
             break
     return calls, True
@@ -208,12 +219,12 @@ def dispatch_out(listeners, kind):
     """-> (early calls, written?, ordinary calls)."""
     e = []
     for l in matching(listeners, kind, True, True, MATCH_OUT):
-        e.append(l['id'])
+        e.append(l.get('cb', l['id']))
         if kind in l['ignore']:
             return e, False, []
     o = []
     for l in matching(listeners, kind, True, False, MATCH_OUT):
-        o.append(l['id'])
+        o.append(l.get('cb', l['id']))
         if kind in l['ignore']:
             break
     return e, True, o
@@ -422,10 +433,14 @@ def execute(scenario, tape):
                 if kind in l['ignore']:
                     raise IgnorePacket
             return cb_
+        cbs = {}
         for l in scenario['listeners']:
+            if l.get('cb', l['id']) == l['id']:
+                cbs[l['id']] = make(l)
+            # (an alias registers the very same callable once more)
             conn.register_packet_listener(
-                make(l), *[T[t] for t in l['types']], early=l['early'],
-                outgoing=l['outgoing'])
+                cbs[l.get('cb', l['id'])], *[T[t] for t in l['types']],
+                early=l['early'], outgoing=l['outgoing'])
         # the harness' own probe for "in play" (registered last: an ordinary
         # listener, so it does not disturb the order under test)
         conn.register_packet_listener(
